@@ -70,8 +70,8 @@ func (m *Model) RunResponse(s *Sink, rule string) {
 					continue
 				}
 				if m.InModule(sc) && depth < 2 {
-					if sc == strFn || sc.Name() == "Eval" || sc.Name() == "EvaluateString" {
-						return "the response writer is handed to the renderer (" + sc.Name() + "): output could be written before rendering has finished"
+					if sc == strFn || canonFnName(sc) == "Eval" || canonFnName(sc) == "EvaluateString" {
+						return "the response writer is handed to the renderer (" + canonFnName(sc) + "): output could be written before rendering has finished"
 					}
 					// helper: find the parameter it binds to
 					for i, a := range c.Call.Args {
